@@ -25,7 +25,7 @@ LEVEL_NOTE = ('trusted: CPython tokenize/ast; the target node is addressed by de
 RULE = ('enum: case = (program, gap, replacement); kept iff ast.parse(new) has the same structure; non-trivial = distinct '
         'cases whose source changed; states = distinct sources before/after; traces = executions compared with ast.parse')
 ASSUMPTIONS = ['Module-rooted trees']
-BOUNDS = {'quick': '56 programs, all gaps, 16 replacements, depth 1; depth 2 on 12 programs with 5 replacements',
+BOUNDS = {'quick': '58 programs, all gaps, 16 replacements, depth 1; depth 2 on 12 programs with 5 replacements',
           'thorough': '52 programs, all gaps and all interior positions of multi-char gaps, depth 2 on all programs'}
 
 EXTRA = [
@@ -47,7 +47,11 @@ FSTR = [  # self-documenting f-string expressions ('{x = }' keeps its source tex
     "s = 'naïve'; t = f'{(a , b) = }' f'{ x = !r:>{ w }}'",
     "u = f'''é {\n a = } ü { b  =  }''' 'ö'",
 ]
-PROGS = BASE[:46] + EXTRA + BASE[46:] + FSTR  # positional case ids: later additions go to the end
+MBML = [  # multi-line trivia whose first line has multi-byte text before the gap and whose last line is ASCII (and the reverse)
+    "names = [\"Zoë\",\n         other]\nf('é',\n  b)",
+    "x = ('ü' +\n     y)  # é\nz = {'k':  # ñ\n     v}\nw = [a,\n  'ö']",
+]
+PROGS = BASE[:46] + EXTRA + BASE[46:] + FSTR + MBML  # positional case ids: later additions go to the end
 for _p in PROGS:
     ast.parse(_p)
 
